@@ -206,10 +206,10 @@ def run(chk):
             seen.add(k)
             hists.append([SPEC_MENU[i - 1] for i in h[1]])
     chk.notes["spec_generated_histories"] = len(hists)
-    n_h = 14 if quick else 150
+    n_h = 14 if quick else 80
     sample = r.sample(hists, min(n_h, len(hists)))
     # deeper seeded histories over the full menu
-    for _ in range(4 if quick else 60):
+    for _ in range(4 if quick else 30):
         sample.append([r.choice(MENU) for _ in range(r.randint(3, 5))])
     # make sure the interesting interplay is present in every run
     sample += [["psi1", "amp2ph_k3c3"], ["get:i3j3a4b7", "m2phph"],
